@@ -465,18 +465,18 @@ def catalog(thorough):
     Q_small = get(SEnum, "u8", vsets[0][0], 0)
     add(get(SStruct, [Q_small, U16]))
     # containers at top level
-    VP = [(U8, U8), (U8, U16), (U8, U32), (U16, U8), (U32, U8), (U64, U8), (U64, U32), (U128, U8), (ARR[0], U32), (BOOL, U8), (BOOL, U32),
+    VP = [(UNIT, U8), (U8, U8), (U8, U16), (U8, U32), (U16, U8), (U32, U8), (U64, U8), (U64, U32), (U128, U8), (ARR[0], U32), (BOOL, U8), (BOOL, U32),
           (LE32, LE16), (U16, BE32), (P_u8u32, U16), (Q_small, U8), (K3, U8), (I32, U16), (P_bool, U8), (U8, USIZE), (U8, U64), (LE16, U8), (U8, LE64)]
     for e, l in VP: add(Vec(e, l))
     for l in [U8, U16, U32, USIZE, LE16, BE32]: add(Str(l))
     V88 = Vec(U8, U8); V_i32_16 = Vec(I32, U16); V_b8 = Vec(BOOL, U8); S8 = Str(U8)
     # unsized structs
-    prefixes = [[], [U8], [U32], [U8, U16], [U64, U8], [BOOL], [K3]]
+    prefixes = [[], [U8], [U32], [U8, U16], [U64, U8], [BOOL], [K3], [U8, U32], [U16, U64]]
     tails = [V88, Vec(U8, U16), Vec(U32, U8), Vec(U64, U32), V_b8, S8, Str(U32), Flex(V88, U8), Flex(U32, U16)]
     US = []
     for pi, p in enumerate(prefixes):
         for ti, t in enumerate(tails):
-            if thorough or pi in (0, 1, 2) or ti in (0, 3) or (pi + ti) % 4 == 0:
+            if thorough or pi in (0, 1, 2) or ti in (0, 3) or (pi + ti) % 4 == 0 or (pi >= 7 and ti in (0, 1, 5, 7)):
                 US.append(add(get(UStruct, p + [t])))
     add(get(UStruct, [U16, V88], "tuple"))
     U_u32_v88 = get(UStruct, [U32, V88]); U_u8_v = get(UStruct, [U8, Vec(U8, U16)])
@@ -499,6 +499,9 @@ def catalog(thorough):
     ue("u8", [("unit", []), ("tuple", [U_u32_v88])], 0)     # nested unsized struct
     ue("u16", [("unit", []), ("tuple", [K3, V_b8]), ("tuple", [Q_small])], 0)
     W_nested = ue("u8", [("unit", []), ("tuple", [W_pad])], 0)
+    # variants with three fields: padding in front of a middle field, a less aligned last field
+    ue("u8", [("unit", []), ("tuple", [U8, U32, U16]), ("named", [U8, U32, V88])], 0)
+    ue("u16", [("unit", []), ("tuple", [U16, U64, S8]), ("tuple", [U8, U64, U8]), ("named", [U8, U32, Flex(U8, U8)])], 0)
     add(get(UStruct, [U8, W_pad]))                          # enum as struct tail
     if thorough:
         for tag in tags:
